@@ -33,7 +33,7 @@ MaxPage == IF Full THEN 3 ELSE 1
 \* without XMCD: the full product
 \* (a DCD of these cases: one Write Data command, sometimes a Check Data command, NOPs - shape "gen", length and version by index)
 PrimB == { p \in [lay : 1..4, res : Residues, pages : Pages, flags : Flags, cfg : {"none", "dcd"}, xk : {"none"}, xv : {"none"},
-                  ds : {"gen", "none"}, dv : {-1}, sub : {0}, rep : 0..(Reps - 1)] :
+                  ds : {"gen", "none"}, dv : {-1}, sub : {0}, nl : {0}, rep : 0..(Reps - 1)] :
              p.pages * 4096 + p.res >= 64 /\ (p.ds = "none") = (p.cfg = "none") }
 \* SHAPE OF THE SUPPLIED DCD: every shape x every header version x every flag (layout and application size by index).
 \*   hdr  - the smallest legal DCD: a header without any command (D2 00 04 4x)       one - one Write Data command with one pair
@@ -43,15 +43,23 @@ PrimB == { p \in [lay : 1..4, res : Residues, pages : Pages, flags : Flags, cfg 
 DcdShapeNames == {"hdr", "one", "wr", "chk", "misc", "mix"}
 DcdVerSel == 0..2
 PrimD == [lay : {0}, res : {-1}, pages : {-1}, flags : Flags, cfg : {"dcd"}, xk : {"none"}, xv : {"none"},
-          ds : DcdShapeNames, dv : DcdVerSel, sub : (IF Full THEN 0..1 ELSE {0}), rep : 0..(Reps - 1)]
+          ds : DcdShapeNames, dv : DcdVerSel, sub : (IF Full THEN 0..1 ELSE {0}), nl : {0}, rep : 0..(Reps - 1)]
 \* with XMCD (layouts whose application offset leaves room: the RT116x / RT117x boot devices): every kind x every flag x every source
 XLays == {i \in 1..4 : Lays[i].ils - Lays[i].ivtOff >= 3072}
 PrimX == [lay : XLays, res : {-1}, pages : {-1}, flags : Flags, cfg : {"xmcd"}, xk : XmcdKindNames, xv : {"golden", "tmpl", "rand"},
-          ds : {"none"}, dv : {-1}, sub : (IF Full THEN 0..2 ELSE {0}), rep : 0..(Reps - 1)]
+          ds : {"none"}, dv : {-1}, sub : (IF Full THEN 0..2 ELSE {0}), nl : {0}, rep : 0..(Reps - 1)]
 PrimR == [lay : XLays, res : {-1}, pages : {-1}, flags : Flags, cfg : {"xmcd"}, xk : {"raw"}, xv : {"rand"},
-          ds : {"none"}, dv : {-1}, sub : (IF Full THEN 0..5 ELSE 0..1), rep : 0..(Reps - 1)]
-Prim == PrimB \cup PrimX \cup PrimR \cup PrimD
-PrimSeq == SetToSeq(Prim)
+          ds : {"none"}, dv : {-1}, sub : (IF Full THEN 0..5 ELSE 0..1), nl : {0}, rep : 0..(Reps - 1)]
+\* ENCRYPTED IMAGE WITH A SUPPLIED NONCE: every legal nonce length (7..13 bytes; nl = 0 elsewhere: a supplied nonce has 13 bytes) x length of the
+\* encrypted data around 2^16, the boundary of the 2-byte length field of AES-CCM (15 - |nonce| bytes): the application padded to 16 bytes is
+\* below / exactly at / above 65536 bytes (layout by index).  There the ROM decrypts with the nonce of the MAC record, or the build is refused.
+NonceLens == 7..13
+CcmSizes == {61440, 65519, 65520, 65521, 65536, 65552} \cup (IF Full THEN {65535, 69632} ELSE {})
+PrimN == [lay : {0}, res : CcmSizes, pages : {0}, flags : {"enc"}, cfg : {"none"}, xk : {"none"}, xv : {"none"},
+          ds : {"none"}, dv : {-1}, sub : {0}, nl : NonceLens, rep : 0..(Reps - 1)]
+Prim0 == PrimB \cup PrimX \cup PrimR \cup PrimD
+PrimSeq0 == SetToSeq(Prim0)
+PrimSeq == PrimSeq0 \o SetToSeq(PrimN)          \* the nonce cases behind the others: the indices (= secondary dimensions) of those stay
 
 Trees == << "rsa2048", "p256", "rsa4096", "p384", "fa_rsa2048", "rsa3072", "p521", "fa_p256" >>
 KeyVars == << "pk", "sp", "auto" >>
@@ -93,7 +101,7 @@ Case(k) ==
       flags |-> p.flags, cfg |-> p.cfg, cfgLen |-> cfgLen, rep |-> p.rep, xmcdKind |-> p.xk, xmcdVar |-> p.xv, sub |-> p.sub,
       tree |-> tree, fast |-> IsFast(tree), nSrk |-> nSrk, src |-> (x \div 5) % nSrk, keyvar |-> Pick(KeyVars, x \div 7),
       macLen |-> 4 + 2 * ((x \div 2) % 7), dekLen |-> Pick(<<16, 24, 32>>, x \div 11),
-      nonceGiven |-> (x \div 13) % 2 = 0, reuseDek |-> (x \div 17) % 2 = 0, extra |-> (x \div 19) % 4,
+      nonceGiven |-> p.nl # 0 \/ (x \div 13) % 2 = 0, nonceLen |-> IF p.nl # 0 THEN p.nl ELSE 13, reuseDek |-> (x \div 17) % 2 = 0, extra |-> (x \div 19) % 4,
       ver |-> Pick(Vers, x \div 23), tgt |-> IF IsFast(tree) THEN 0 ELSE 2 + ((x \div 29) % 4),
       entryGiven |-> (x \div 31) % 3, byDb |-> (x \div 37) % 2 = 0 /\ lay.n # "ram", startSel |-> (x \div 41) % 6,
       dcdShape |-> p.ds, dcdCmds |-> dcmds,
@@ -126,7 +134,7 @@ Hist(h) ==
       src == (x \div 5) % 4
       shape == HShapes[p.shape]
       pat == Pick(HFlagPat, x)
-      B(i) == LET c == Case(((x * 31 + 101 * i) % Len(PrimSeq)) + 1)
+      B(i) == LET c == Case(((x * 31 + 101 * i) % Len(PrimSeq0)) + 1)
               IN [c EXCEPT !.id = HistIdBase + 10 * h + i, !.rep = p.rep, !.tree = tree, !.fast = IsFast(tree),
                            !.tgt = IF IsFast(tree) THEN 0 ELSE 2 + ((x + i) % 4), !.flags = pat[i], !.keyvar = KeyVars[p.kv],
                            !.src = src, !.nSrk = IF c.nSrk > src THEN c.nSrk ELSE src + 1]
